@@ -82,7 +82,7 @@ REACH = 1e-9             # prefix probability below which a path is "never taken
 NDRAW = 20000            # real draws of the statistical fallback
 FAMS = ['generic', 'generic', 'rank1', 'overrank', 'deficient', 'mode1',
     'int', 'd2', 'decay', 'scaled', 'zero', 'zero', 'peaked', 'kron2',
-    'unsert-null', 'zero-scaled']
+    'unsert-null', 'zero-scaled', 'signgauge', 'signgauge']
 
 
 # ---- cases ------------------------------------------------------------------------
@@ -512,6 +512,8 @@ def build(rng, family, max_entries=300, rmax=4):
     """(Y0 arbitrary sign, Ypos non-negative tensor, info)."""
     base = {'zero': 'generic', 'peaked': 'generic', 'kron2': 'generic',
         'unsert-null': 'generic', 'zero-scaled': 'generic'}.get(family, family)
+    if family == 'signgauge':
+        base = ['generic', 'rank1', 'd2', 'generic'][int(rng.integers(4))]
     rmax = 3 if family == 'kron2' else rmax
     nmin = 1
     for _ in range(50):
@@ -539,6 +541,25 @@ def build(rng, family, max_entries=300, rmax=4):
         Ypos = kron_square(Y0)
     else:
         Ypos = [np.abs(G) for G in Y0]
+    if family == 'signgauge':
+        # the same non-negative tensor in another gauge: G_k S, S G_{k+1} with
+        # a random sign matrix S at every bond (exact in floating point), and
+        # some bonds cut to rank 1 so that a lone factor -1 sits on them
+        d = len(Ypos)
+        cut = [k for k in range(1, d) if rng.random() < 0.35]
+        for k in cut:
+            Ypos[k - 1] = np.ascontiguousarray(Ypos[k - 1][:, :, :1])
+            Ypos[k] = np.ascontiguousarray(Ypos[k][:1, :, :])
+            Y0[k - 1] = np.ascontiguousarray(Y0[k - 1][:, :, :1])
+            Y0[k] = np.ascontiguousarray(Y0[k][:1, :, :])
+        for k in range(1, d):
+            sg = rng.choice([-1., 1.], size=Ypos[k].shape[0])
+            if Ypos[k].shape[0] == 1 and rng.random() < 0.7:
+                sg = np.array([-1.])
+            Ypos[k - 1] = Ypos[k - 1] * sg[None, None, :]
+            Ypos[k] = Ypos[k] * sg[:, None, None]
+        info = dict(info, r=ref.ranks_of(Ypos))
+        flags['sign-gauge'] = True
     info = dict(info, family=family, flags=flags)
     return Y0, Ypos, info
 
